@@ -72,6 +72,14 @@ def run_case(case, seed):
         arg = mis[0] if nmi == 1 and ndev % 2 == 1 else tuple(mis)
         res = ml.get_batches(arg, B, key, [None] * ndev)
         evals += 1
+        # batching must not modify the data set, and a second identical call must return the same batches
+        for j, t in enumerate(TYPES[:nmi]):
+            for kp, c in t:
+                if np.asarray(mis[j][kp]).shape[0] != L or not np.all(np.asarray(mis[j][kp]).reshape(L, -1)[:, 0] == np.arange(L)):
+                    bad("C17/argument-mutated", f"get_batches modified its input data set (multi-image {j}, type {kp})")
+        res2 = ml.get_batches(arg, B, key, [None] * ndev)
+        if len(res2) != len(res) or any(len(a) != len(b) for a, b in zip(res, res2)) or any(not np.array_equal(np.asarray(x[kp]), np.asarray(y[kp])) for a, b in zip(res, res2) for x, y in zip(a, b) for kp in x.keys()):
+            bad("C17/not-repeatable", "a second identical get_batches call returned different batches")
         if len(res) != nmi:
             bad("C17/structure", f"got {len(res)} batch lists for {nmi} multi-images")
             continue
